@@ -88,6 +88,8 @@ type runner struct {
 	wg    sync.WaitGroup
 	info  *TInfo
 	check string // C12 | C13
+	// stragglers: pool goroutines of an abandoned control block that were still alive when the case started
+	stragglers int
 }
 
 func (r *runner) call(d time.Duration, block time.Duration, far bool) *frec {
@@ -205,6 +207,12 @@ func run(c TCase, check string, info *TInfo) *vstat.Violation {
 	idle := time.Duration(c.IdleMs) * time.Millisecond
 	resetPool(c.MaxWorkers, idle)
 	r := &runner{c: c, base: time.Now(), info: info, check: check}
+	// goroutines of the control block the previous case left behind that have not gone yet (resetPool waits two seconds for
+	// them; on an overloaded machine that may not be enough): they do not belong to the pool this case looks at
+	r.stragglers = watcherGoroutines()
+	if r.stragglers > 0 {
+		info.class("goroutines_of_the_previous_control_block_still_alive_at_case_start")
+	}
 	if c.Warm {
 		var warm atomic.Int32
 		for i := 0; i < 3; i++ {
@@ -555,7 +563,9 @@ func (r *runner) verdict(idle time.Duration) *vstat.Violation {
 	// wind-down: nothing is pending now, the package must reach zero background goroutines
 	r.info.WindDownChecked = true
 	limit := time.Now().Add(3*idle + 5*time.Second)
-	for poolWorkers() > 0 || watcherGoroutines() > 0 {
+	// the goroutine count (read from the stacks) cannot tell this pool's workers from stragglers of the previous control
+	// block: with stragglers around only the package's own counter is judged
+	for poolWorkers() > 0 || (r.stragglers == 0 && watcherGoroutines() > 0) {
 		if time.Now().After(limit) {
 			return vstat.V("timers:no-wind-down", "nothing is pending but %d pool goroutines (package counter: %d) are still alive %v after the script (idle timeout %v)", watcherGoroutines(), poolWorkers(), 3*idle+5*time.Second, idle)
 		}
